@@ -15,6 +15,10 @@ import (
 // ErrCheck is the error a failing expected-check returns in these workloads.
 var ErrCheck = status.Error(CheckCode, "expected-check failed")
 
+// ErrPlainCheck is a plain Go error (no gRPC status) returned by the expected-check when Opts.PlainCheckErr is set:
+// "the error returned from fn will be returned from the update call" means this very error comes back.
+var ErrPlainCheck = errors.New("expected-check failed (plain error)")
+
 // ResourceOptions returns the resource options mirroring cfg (without clock, rng, initial contents).
 func (m *Model) ResourceOptions() []resource.Option {
 	var opts []resource.Option
@@ -68,6 +72,9 @@ func (m *Model) WriteOptions(o Opts, res *Result) []resource.WriteOption {
 		chk := m.Type.Check
 		wo = append(wo, resource.WithExpectedCheck(func(cur proto.Message) error {
 			if chk != nil && !chk(cur) {
+				if o.PlainCheckErr {
+					return ErrPlainCheck
+				}
 				return ErrCheck
 			}
 			return nil
@@ -118,6 +125,7 @@ func setErr(res *Result, err error) {
 		return
 	}
 	res.Err = err.Error()
+	res.IsPlainCheckErr = errors.Is(err, ErrPlainCheck)
 	var se interface{ GRPCStatus() *status.Status }
 	if errors.As(err, &se) {
 		res.Code = se.GRPCStatus().Code()
